@@ -6,9 +6,29 @@ MODNAME = "c06"
 CASES_PER_SHARD = 60
 CASE_TIMEOUT = 60
 RULE = ("random histories of set-labels / set-options / compute / re-compute on ONE engine over pools of 1-3 label sets "
-        "(ties, half-integers, dense clusters, the same labels permuted, stale Node objects reused across layouts); after every "
+        "(ties, half-integers, dense clusters, the same labels permuted, sub-lists, stale Node objects reused across layouts; half of the histories alternate between multi-layer and single-layer configurations on the same objects); after every "
         "compute the per-label (layer, position) is compared with the extracted model of a FRESH layout of the current labels "
         "and effective options. Non-trivial = a history with at least two computes of which one is multi-layer; distinct by history.")
+EXPLANATION = ("Theorems are about coq/Layout/Force.v: the engine state machine of coq/Layout/ForceState.v (labella/force.py with the node-state "
+               "parts of node.py, distributor.py, removeOverlap.py) instantiated with the layer solver of coq/Layout/Layer.v. The tie replays every "
+               "history on the extracted model (shared Node objects with whatever an earlier layout left in them, option updates, computes) and "
+               "requires, after every compute, the same engine node order, the same layer and integer position for every label and the same "
+               "reported layers (label identity, is_stub, position, list order) as labella's Force.")
+LEVEL_TEXT = ("Machine-checked Coq theorems, for ALL operation histories, stale node states, label lists and option values of the documented "
+              "domain: a compute reads no field an earlier layout left behind (C06_scrub); every compute of every history outputs the stateless "
+              "layout of the current labels under the effective options (C06_history; re-computation, engine reuse, a second label set as "
+              "corollaries); permuting labels whose ties share a width gives the same multiset of (position, width, layer, placement) "
+              "(C06_permutation); stability of the position sort and a kernel-checked witness that the overlap algorithm does NOT keep tied labels "
+              "in input order (C06_tie_order, C06_tie_order_overlap_refuted); every layer of every compute satisfies the C01 separation/order "
+              "theorems and is solved with the reported positions of the nearer layer as targets (C01_all_layers, C02_targets). The model is "
+              "tied to the code by differential execution of histories on every run.")
+LEVEL_NOTE = ("Trusted: Coq kernel; extraction re-checked on a slice by vm_compute; the correspondence harness and its generators. Modelled, not "
+              "verified: labella/force.py, node.py, distributor.py, removeOverlap.py; the VPSC solver is represented by the exact chain solver "
+              "(its tie is C01-C03/C05); doubles by exact rationals. One rounding of the code is accounted for explicitly: density*layerWidth "
+              "is rounded to a double by the code; when that product is inexact the history is also replayed with the density that makes the "
+              "model's exact product equal the code's double, and a disagreement that this removes is counted as ambiguous, not as a mismatch.")
+TECHNIQUE = ("Coq proof (refinement of the engine state machine to a stateless layout via a canonical form of the node list; equivariance under "
+             "renaming of label identities; composition with the per-layer theorems) + model/implementation correspondence on operation histories")
 ALGS = ["overlap", "simple", "none"]
 
 
@@ -29,6 +49,15 @@ def impl(py):
     from labella.force import Force
     from labella.node import Node
     sets = [[Node(p, w, data=i) for i, (p, w) in enumerate(s)] for s in py["sets"]]
+    gid = {}
+    for k, st in enumerate(sets):
+        for i, nd in enumerate(st):
+            gid[id(nd)] = _offsets(py["sets"])[k] + i
+
+    def root(x):
+        while x.child:
+            x = x.child
+        return gid.get(id(x), -1)
     force = Force(py.get("init_opts"))
     eff = dict(py.get("init_opts") or {})
     cur = None
@@ -51,8 +80,126 @@ def impl(py):
             fresh, fshape = _layout_of(f2, f2.nodes())
             outs.append({"labels": [[n.idealPos, n.width] for n in force.nodes()], "hist": hist,
                          "fresh_labels": [[n.idealPos, n.width] for n in f2.nodes()], "fresh": fresh,
-                         "shape": shape, "fresh_shape": fshape, "eff": {k: eff[k] for k in sorted(eff)}})
+                         "shape": shape, "fresh_shape": fshape, "eff": {k: eff[k] for k in sorted(eff)},
+                         "ids": [gid[id(n)] for n in force.nodes()],
+                         "layers": [[[root(x), 1 if x.isStub() else 0, x.currentPos] for x in lay]
+                                    for lay in (force.getLayers() or [])]})
     return outs
+
+
+# ----------------------------------------------------------------- model ---
+DEFAULTS = {"nodeSpacing": 3, "minPos": 0, "maxPos": None, "algorithm": "overlap", "density": 0.85, "stubWidth": 1}
+
+
+def _offsets(sets):
+    off, t = [], 0
+    for st in sets:
+        off.append(t)
+        t += len(st)
+    return off
+
+
+def _q(x):
+    fr = Fraction(x)
+    return [fr.numerator, fr.denominator]
+
+
+def _enc_update(o):
+    """set_options(o): alg? minPos?? maxPos?? density? nodeSpacing? stubWidth? lineSpacing?"""
+    out = []
+    out += [1, ALGS.index(o["algorithm"])] if "algorithm" in o else [0]
+    for k in ("minPos", "maxPos"):
+        if k in o:
+            out += [1] + ([0] if o[k] is None else [1] + _q(o[k]))
+        else:
+            out += [0]
+    for k in ("density", "nodeSpacing", "stubWidth", "lineSpacing"):
+        out += [1] + _q(o[k]) if k in o else [0]
+    return out
+
+
+def _history_call(py, adjust):
+    """command 380.  adjust: before every compute set the density to the value that makes
+    the model's exact density*layerWidth equal the double the code computes."""
+    off = _offsets(py["sets"])
+    heap = []
+    for k, st in enumerate(py["sets"]):
+        for i, (p, w) in enumerate(st):
+            heap += [off[k] + i] + _q(p) + _q(w)
+    call = [380, sum(len(st) for st in py["sets"])] + heap
+    ops = []
+    eff = dict(DEFAULTS)
+    inexact = False
+    if py.get("init_opts"):
+        ops.append([1] + _enc_update(py["init_opts"]))
+        eff.update(py["init_opts"])
+    for op in py["ops"]:
+        if op[0] == "opts":
+            ops.append([1] + _enc_update(op[1]))
+            eff.update(op[1])
+        elif op[0] == "nodes":
+            ops.append([0, len(op[2])] + [off[op[1]] + k for k in op[2]])
+        else:
+            mn, mx, d = eff["minPos"], eff["maxPos"], eff["density"]
+            if mn is not None and mx is not None and (mx - mn):
+                lw = mx - mn
+                prod = d * lw
+                if Fraction(prod) != Fraction(d) * Fraction(lw):
+                    inexact = True
+                    if adjust:
+                        ops.append([1] + _enc_update({"density": Fraction(prod) / Fraction(lw)}))
+                elif adjust:
+                    ops.append([1] + _enc_update({"density": d}))
+            ops.append([2])
+    call += [len(ops)]
+    for o in ops:
+        call += o
+    return call, inexact
+
+
+def _model_calls(py):
+    a, inexact = _history_call(py, False)
+    if not inexact:
+        return [a]
+    return [a, _history_call(py, True)[0]]
+
+
+def _dec_history(m):
+    """-> list of computes: dict(status, nodes [(id, layer, cur)], layers [[(id, stub, cur)]], exact [[q]])"""
+    if m is None or not m or m == [-999]:
+        return None
+    k = 1
+    res = []
+    for _ in range(m[0]):
+        status = m[k]
+        k += 1
+        n = m[k]
+        k += 1
+        nodes = []
+        for _i in range(n):
+            nodes.append((m[k], m[k + 1], Fraction(m[k + 2], m[k + 3])))
+            k += 4
+        nl = m[k]
+        k += 1
+        layers = []
+        for _j in range(nl):
+            cnt = m[k]
+            k += 1
+            lay = []
+            for _i in range(cnt):
+                lay.append((m[k], m[k + 1], Fraction(m[k + 2], m[k + 3])))
+                k += 4
+            layers.append(lay)
+        nl = m[k]
+        k += 1
+        exact = []
+        for _j in range(nl):
+            cnt = m[k]
+            k += 1
+            exact.append([Fraction(m[k + 2 * i], m[k + 2 * i + 1]) for i in range(cnt)])
+            k += 2 * cnt
+        res.append({"status": status, "nodes": nodes, "layers": layers, "exact": exact})
+    return res
 
 
 # ------------------------------------------------------------- generator ---
@@ -109,18 +256,68 @@ def make(rng):
             ops.append(["compute"])
     if ops[-1][0] != "compute":
         ops.append(["compute"])
-    return {"kind": "history", "py": {"sets": sets, "init_opts": init, "ops": ops}, "model": []}
+    py = {"sets": sets, "init_opts": init, "ops": ops}
+    return {"kind": "history", "py": py, "model": _model_calls(py)}
+
+
+def make_crowded(rng):
+    """histories that alternate between configurations needing several layers and
+    configurations needing one, on the same Node objects (stale stubs, layers, positions)"""
+    sets = []
+    for _ in range(rng.randrange(1, 3)):
+        n = rng.choice([6, 10, 15, 24, 35])
+        base = rng.choice([0, 100, 300])
+        span = rng.choice([150, 400, 900])
+        st = []
+        for _i in range(n):
+            p = base + rng.choice([rng.randrange(0, span), rng.randrange(0, 2 * span) / 2.0, rng.choice([10, 10, 60, 60, 200])])
+            st.append([p, rng.choice([10, 20, 40, 50, 50.5, 64])])
+        if rng.random() < 0.6:
+            seen = {}
+            for r in st:
+                r[1] = seen.setdefault(r[0], r[1])
+        sets.append(st)
+    narrow = lambda: {"minPos": rng.choice([0, 0, -100, 50]), "maxPos": rng.choice([200, 400, 800])}  # noqa: E731
+    wide = lambda: rng.choice([{"maxPos": None}, {"maxPos": 100000}, {"algorithm": "none"}, {"minPos": None}])  # noqa: E731
+    init = dict(narrow())
+    if rng.random() < 0.5:
+        init["algorithm"] = rng.choice(ALGS)
+    ops = [["nodes", 0, list(range(len(sets[0])))], ["compute"]]
+    for _ in range(rng.randrange(2, 8)):
+        r = rng.random()
+        if r < 0.3:
+            ops.append(["opts", wide()])
+        elif r < 0.5:
+            o = dict(narrow())
+            if rng.random() < 0.5:
+                o["algorithm"] = rng.choice(["overlap", "simple"])
+            ops.append(["opts", o])
+        elif r < 0.6:
+            ops.append(["opts", _opt_update(rng)])
+        elif r < 0.75:
+            si = rng.randrange(len(sets))
+            perm = list(range(len(sets[si])))
+            if rng.random() < 0.7:
+                rng.shuffle(perm)
+            if rng.random() < 0.3:
+                perm = perm[:max(1, len(perm) // 2)]      # a smaller list sharing the Node objects
+            ops.append(["nodes", si, perm])
+        ops.append(["compute"])
+    py = {"sets": sets, "init_opts": init, "ops": ops}
+    return {"kind": "crowded_history", "py": py, "model": _model_calls(py)}
 
 
 def rebuild(c):
     c = dict(c)
-    c.setdefault("model", [])
+    c["model"] = _model_calls(c["py"])
     return c
 
 
 def gen(rng, tier):
-    for _ in range(400 if tier == "quick" else 6000):
+    for _ in range(400 if tier == "quick" else 4000):
         yield make(rng)
+    for _ in range(400 if tier == "quick" else 4000):
+        yield make_crowded(rng)
 
 
 # ---------------------------------------------------------------- oracle ---
@@ -150,7 +347,48 @@ def oracle(case, io):
             if key in prev_by_set and prev_by_set[key] != ms:
                 return "compute #%d: same labels and options in a different input order gave a different layout" % k
             prev_by_set[key] = ms
+    # last, so that it can never mask another failure: the clause "labels that share a data
+    # position but not a width keep the mutual order of the input".  Known finding
+    # (signature tie-order-overlap) when the algorithm is overlap and a greedy round ran.
+    known = None
+    for k, o in enumerate(io):
+        why = _tie_order(k, o)
+        if why and not why[0]:
+            return why[1]
+        if why and known is None:
+            known = why[1]
+    return known
+
+
+TIE_PREFIX = "tie-order:"
+
+
+def _tie_order(k, o):
+    """(is_known_shape, message) or None.  Input order = order of the engine's label list
+    (for algorithm none removeOverlap sorted it in place, stably: ties keep the input order)."""
+    labs, hist = o["labels"], o["hist"]
+    alg = dict(DEFAULTS, **o["eff"]).get("algorithm", "overlap")
+    nlayers = 1 + max([h[0] for h in hist] or [0])
+    for i in range(len(labs)):
+        for j in range(i + 1, len(labs)):
+            if labs[i][0] == labs[j][0] and labs[i][1] != labs[j][1] and hist[i][0] == hist[j][0] \
+                    and hist[i][1] > hist[j][1]:
+                greedy = alg == "overlap" and nlayers > 1
+                msg = ("%s compute #%d algorithm=%s layers=%d: labels %r and %r share a data position but not a width, are both "
+                       "in layer %d, and the later one is placed left of the earlier one (%r > %r)" % (
+                           TIE_PREFIX, k, alg, nlayers, labs[i], labs[j], hist[i][0], hist[i][1], hist[j][1]))
+                return (greedy, msg)
     return None
+
+
+def matches_finding(f, case, failure):
+    """open finding tie-order-overlap: exactly the tie-order clause, under algorithm overlap,
+    in a layout of more than one layer (a greedy round re-sorted the layer list)"""
+    if f.get("signature") != "tie-order-overlap" or not failure.startswith(TIE_PREFIX):
+        return False
+    import re
+    m = re.search(r"algorithm=(\w+) layers=(\d+)", failure)
+    return bool(m) and m.group(1) == "overlap" and int(m.group(2)) > 1
 
 
 def nontrivial(case, io):
@@ -159,8 +397,110 @@ def nontrivial(case, io):
     return len(io) >= 2 and any(any(l > 0 for l, _ in o["hist"]) for o in io)
 
 
-def compare(case, io, mo):
+BAND = Fraction(1, 10 ** 7)      # ambiguity band around a .5 rounding boundary (DESIGN.md 3.4)
+
+
+def _small_dyadic(x):
+    if x is None:
+        return True
+    fr = Fraction(x)
+    d = fr.denominator
+    return d <= 4096 and d & (d - 1) == 0 and abs(fr) < 2 ** 21
+
+
+def _cmp_compute(py, k, o, m):
+    """one compute: None (equal), ("amb", why) or ("diff", why)"""
+    if m["status"] != 1:
+        return ("diff", "compute #%d: model says the labels/options are outside the documented domain" % k)
+    if o["ids"] != [i for i, _, _ in m["nodes"]]:
+        return ("diff", "compute #%d: engine node order %r, model %r" % (k, o["ids"], [i for i, _, _ in m["nodes"]]))
+    shape_i = [[(g, s) for g, s, _ in lay] for lay in o["layers"]]
+    shape_m = [[(g, s) for g, s, _ in lay] for lay in m["layers"]]
+    lay_i = [h[0] for h in o["hist"]]
+    lay_m = [l for _, l, _ in m["nodes"]]
+    if lay_i != lay_m:
+        bad = [j for j, (a, b) in enumerate(zip(lay_i, lay_m)) if a != b][:3]
+        return ("diff", "compute #%d: layer of labels %r: implementation %r, model %r" % (
+            k, [o["ids"][j] for j in bad], [lay_i[j] for j in bad], [lay_m[j] for j in bad]))
+    pos_i = [h[1] for h in o["hist"]]
+    pos_m = [c for _, _, c in m["nodes"]]
+    same_pos = all(isinstance(a, int) and not isinstance(a, bool) and Fraction(a) == b for a, b in zip(pos_i, pos_m))
+    if same_pos and shape_i == shape_m and all(
+            [Fraction(c) for _, _, c in li] == [c for _, _, c in lm] for li, lm in zip(o["layers"], m["layers"])):
+        return None
+    # first layer (nearest the axis) whose reported content differs
+    if len(shape_i) != len(shape_m):
+        return ("diff", "compute #%d: %d reported layers, model %d" % (k, len(shape_i), len(shape_m)))
+    eff = dict(DEFAULTS)
+    eff.update(o["eff"])
+    for j, (li, lm) in enumerate(zip(o["layers"], m["layers"])):
+        if [(g, s) for g, s, _ in li] != [(g, s) for g, s, _ in lm]:
+            # the in-place sort by target decides the order; a different order with equal
+            # contents can only come from different targets, i.e. an earlier difference
+            return ("diff", "compute #%d: reported layer %d is %r, model %r" % (
+                k, j, [(g, s) for g, s, _ in li], [(g, s) for g, s, _ in lm]))
+        diffs = [t for t, (a, b) in enumerate(zip(li, lm)) if Fraction(a[2]) != b[2] or not isinstance(a[2], int)]
+        if not diffs:
+            continue
+        # is every difference of this layer inside the ambiguity band of the rounding?
+        labels = {}
+        off = _offsets(py["sets"])
+        for si, st in enumerate(py["sets"]):
+            for t, (p, w) in enumerate(st):
+                labels[off[si] + t] = (p, w)
+        prev = {g: c for g, _, c in m["layers"][j - 1]} if j > 0 else {}
+        nums = [eff.get("nodeSpacing"), eff.get("minPos"), eff.get("maxPos")]
+        for g, sflag, _ in lm:
+            nums.append(prev[g] if j > 0 and g in prev else labels[g][0])
+            nums.append(eff.get("stubWidth") if sflag else labels[g][1])
+        fexact = all(_small_dyadic(v) for v in nums)
+        for t in diffs:
+            a, b = li[t][2], lm[t][2]
+            x = m["exact"][j][t] if j < len(m["exact"]) and t < len(m["exact"][j]) else None
+            if x is None or not isinstance(a, int) or abs(Fraction(a) - b) != 1:
+                return ("diff", "compute #%d layer %d item %d (label %d): implementation %r, model %s" % (k, j, t, li[t][0], a, b))
+            import math
+            dist = abs((x - math.floor(x)) - Fraction(1, 2))
+            if not (dist <= BAND and (dist > 0 or not fexact)):
+                return ("diff", "compute #%d layer %d item %d (label %d): implementation %r, model %s (exact %s)" % (
+                    k, j, t, li[t][0], a, b, float(x)))
+        return ("amb", "rounding boundary in layer %d of compute #%d" % (j, k))
+    bad = [j for j, (a, b) in enumerate(zip(pos_i, pos_m)) if Fraction(a) != b][:3]
+    return ("diff", "compute #%d: position of labels %r: implementation %r, model %r" % (
+        k, [o["ids"][j] for j in bad], [pos_i[j] for j in bad], [str(pos_m[j]) for j in bad]))
+
+
+def _cmp_history(py, io, m):
+    if m is None:
+        return ("diff", "model rejected the history")
+    if len(m) != len(io):
+        return ("diff", "%d computes, model %d" % (len(io), len(m)))
+    for k, (o, mm) in enumerate(zip(io, m)):
+        r = _cmp_compute(py, k, o, mm)
+        if r is not None:
+            # everything after a difference is a consequence of it (shared, mutated Node objects)
+            return r
     return None
+
+
+def compare(case, io, mo):
+    from harness import core
+    if isinstance(io, dict) and "exc" in io:
+        return "implementation raised %s %s" % (io["exc"], io.get("msg", ""))
+    if not mo or mo[0] is None:
+        return "model produced no output"
+    r = _cmp_history(case["py"], io, _dec_history(mo[0]))
+    if r is None:
+        return None
+    if r[0] == "amb":
+        raise core.Ambiguous()
+    if len(mo) > 1 and mo[1] is not None:
+        # density*layerWidth is inexact in doubles somewhere in this history: the model fed
+        # with the density that reproduces the code's double must then agree
+        r2 = _cmp_history(case["py"], io, _dec_history(mo[1]))
+        if r2 is None or r2[0] == "amb":
+            raise core.Ambiguous()
+    return r[1]
 
 
 def search(rng, tier, mism):
@@ -180,4 +520,4 @@ def shrink_candidates(case):
             if all(o[0] != "compute" for o in new[:first_nodes]):
                 q = dict(py)
                 q["ops"] = new
-                yield {"kind": case["kind"], "py": q, "model": []}
+                yield {"kind": case["kind"], "py": q, "model": _model_calls(q)}
